@@ -80,6 +80,15 @@ class Aborted(BaseException):
     pass
 
 
+class _FakeCode:
+    def __init__(self, name):
+        self.co_name = name
+        self.co_firstlineno = 0
+
+
+_GIL_CODES = {0: _FakeCode("<compiled quoter: about to release the GIL>"), 1: _FakeCode("<compiled quoter: re-acquired the GIL>")}
+
+
 class Sched:
     def __init__(self, nthreads, rng, knobs, stage_prefix, replay=None):
         self.n = nthreads
@@ -197,6 +206,32 @@ class Sched:
         self._switch(me, to, code, off, ls)
         return None
 
+    def on_gil(self, kind):
+        """A GIL release (kind 0) / re-acquisition (kind 1) inside the compiled quoter: a point
+        at which the real interpreter lets any other thread run."""
+        me = self.ident.get(threading.get_ident())
+        if me is None or me != self.current:
+            return None
+        ls = self.local[me] = self.local[me] + 1
+        s = self.step = self.step + 1
+        self.probes["gil_release_points_in_compiled_quoter"] = self.probes.get("gil_release_points_in_compiled_quoter", 0) + 1
+        if self.policy == "replay":
+            to = self.rp[me].get(ls)
+            if to is None or self.done[to] or to == me:
+                return None
+        else:
+            if self.rng.random() >= self.knobs.get("p_gil", 0.5):
+                return None
+            to = self._pick_other(me)
+            if to is None:
+                return None
+        if s > self.cap:
+            self.capped = True
+            return None
+        self.probes["switch_at_gil_release_point"] = self.probes.get("switch_at_gil_release_point", 0) + 1
+        self._switch(me, to, _GIL_CODES[kind], kind, ls)
+        return None
+
     def _switch(self, me, to, code, off, ls):
         loc = (code.co_name, code.co_firstlineno, off)
         self.switches.append([me, ls, to, code.co_name, code.co_firstlineno, off])
@@ -248,11 +283,13 @@ class Sched:
         self.codes = yarl_code_objects(self.stage_prefix)
         for c in self.codes:
             mon.set_local_events(TOOL, c, ev)
+        sys._yarlsim_gil_hook = self.on_gil
         self.installed = True
 
     def uninstall(self):
         if not self.installed:
             return
+        sys._yarlsim_gil_hook = None
         for c in self.codes:
             try:
                 mon.set_local_events(TOOL, c, 0)
